@@ -948,7 +948,25 @@ func nativeReplay(pkgRel string, harnessDirs []string, cs []candidate) ([]replay
 			return []replayOut{{res, 0}}, nil
 		}
 		if n == 0 {
-			return nil, fmt.Errorf("no replay output: %s", tail(string(out), 1500))
+			// the first case of this batch took the whole test process down (runtime fatal error such as a stack
+			// overflow, os.Exit, log.Fatal) before any result line: that is this case's native result
+			so := string(out)
+			if strings.Contains(so, "[build failed]") || strings.Contains(so, "[setup failed]") || !(strings.Contains(so, "fatal error:") || strings.Contains(so, "exit status") || strings.Contains(so, "signal:")) {
+				return nil, fmt.Errorf("no replay output: %s", tail(so, 1500))
+			}
+			why := "exit"
+			for _, l := range strings.Split(so, "\n") {
+				if strings.HasPrefix(l, "fatal error:") || strings.HasPrefix(l, "runtime: goroutine stack exceeds") {
+					why = l
+					break
+				}
+			}
+			outs[start] = replayOut{"process-died " + why, 0}
+			start++
+			if start >= len(cs) {
+				break
+			}
+			continue
 		}
 		// a fatal exit (log.Fatal / os.Exit / runtime fatal) in case k loses later cases: mark k and resume after it
 		if last+1 < len(cases) && outs[start+last+1].result == "not-run" {
@@ -1004,7 +1022,7 @@ func reproduces(v symx.Violation, r replayOut) bool {
 	case "panic":
 		return strings.HasPrefix(r.result, "panic ") || strings.HasPrefix(r.result, "process-died")
 	case "unwind":
-		return r.result == "timeout" || strings.HasPrefix(r.result, "panic ")
+		return r.result == "timeout" || strings.HasPrefix(r.result, "panic ") || strings.HasPrefix(r.result, "process-died fatal error: stack overflow") || strings.HasPrefix(r.result, "process-died runtime: goroutine stack exceeds")
 	case "alloc":
 		return v.Bytes > 0 && r.alloc >= int64(v.Bytes)
 	}
